@@ -7,6 +7,18 @@ from . import jobs as J
 def plan(tier, prop):
     """[(spec, entries, store, depth, oracles, same_entry)]"""
     from . import family as F
+    if prop == "C04":
+        items = []
+        for sp in F.c04_programs():
+            for st in ("memory", "local", "local_cache2", "dbfs"):
+                if tier == "quick" and st in ("local_cache2",) and "chain" in sp["id"]:
+                    continue
+                items.append((sp, ["eval_root", "eval_sub"], st, 2 if tier == "quick" else 3, {prop}, (False, ("inproc", "restart"))))
+        if tier != "quick":
+            for sp in F.unit_programs("quick"):
+                if sp["key"].startswith(("var|type=int", "body|", "arg|kind=lit")):
+                    items.append((sp, list(sp["entries"]), "local", 2, {prop}, True))
+        return items
     units = F.unit_programs("quick" if tier == "quick" else "thorough")
     comps = F.composites()
     items = []
@@ -21,7 +33,7 @@ def plan(tier, prop):
             items.append((sp, ents[:1] if tier == "quick" else ents, "memory", 2, {prop}, (True, ("inproc", "restart", "copy"))))
             from .family import ENTRY_PAIRS
             for a, b in ENTRY_PAIRS:
-                if a in sp["entries"] and b in sp["entries"] and (tier != "quick" or core or sp["id"].endswith("/direct")):
+                if a in sp["entries"] and b in sp["entries"] and (tier != "quick" or core or sp["id"].endswith("/direct") or sp["key"].startswith("arg|")):
                     items.append((sp, [a, b], "memory" if tier == "quick" else "local", 2, {prop}, (False, ("inproc", "restart"))))
         if tier == "quick":
             qents = ents if core else [e for e in ents if e in ("eval_root", "direct")]
